@@ -30,7 +30,7 @@ def worker_env(cfg):
     env["PYTHONHASHSEED"] = "0"
     if B.CONFIGS[cfg].san == "asan":
         env["LD_PRELOAD"] = B.asan_preload()
-        env["ASAN_OPTIONS"] = "detect_leaks=0:abort_on_error=1:handle_abort=1:allocator_may_return_null=1:symbolize=1"
+        env["ASAN_OPTIONS"] = "detect_leaks=0:abort_on_error=1:handle_abort=1:allocator_may_return_null=1:symbolize=1:quarantine_size_mb=32"
         env["UBSAN_OPTIONS"] = "print_stacktrace=1:halt_on_error=1"
     return env
 
@@ -194,7 +194,9 @@ def _run(prop, tier, seed, mod, workdir, t0):
             if t.kind == "enum":
                 nsh = t.max_workers
             else:
-                nsh = max(1, min(t.max_workers, NCPU, n_cfg // 20 or 1))
+                # a sanitizer worker costs ~15 CPU-s before its first case (ASan-preloaded interpreter), so use fewer, longer shards
+                per_shard = 150 if B.CONFIGS[cfg].san else 40
+                nsh = max(1, min(t.max_workers, NCPU, n_cfg // per_shard or 1))
             per = int(math.ceil(n_cfg / nsh))
             for sh in range(nsh):
                 jobs.append({"test": t.name, "cfg": cfg, "n": per, "shard": sh, "nshards": nsh})
@@ -203,7 +205,7 @@ def _run(prop, tier, seed, mod, workdir, t0):
     results = []
     failure = None
     infra = None
-    deadline = time.time() + (3 * 3600 if tier == "thorough" else 1500)
+    deadline = time.time() + (4 * 3600 if tier == "thorough" else 2700)  # generous infrastructure guard, started after the builds
     ji = 0
     while (ji < len(jobs) or running) and failure is None and infra is None:
         while ji < len(jobs) and len(running) < NCPU:
